@@ -1,6 +1,8 @@
 /* C14 harness: sc_shmem_* and the node communicators of the real libsc on the simulated MPI.
    stdin: one run per line:
-     <P> <seed> <adversary> <ppn_attach> <ppn_sim> <noncontig> <flavour> <dtype> <count> <dataseed>
+     <P> <seed> <adversary> <ppn_attach> <ppn_sim> <noncontig> <flavour> <dtype> <count> <dataseed> <sync>
+       sync:       1: all ranks pass an MPI_Barrier before every write round (nobody still reads the array when the
+                   next writer starts); 0: the rounds follow each other directly
        ppn_attach: argument of sc_mpi_comm_attach_node_comms (0: MPI_Comm_split_type; simmpi then forms nodes of
                    ppn_sim ranks, contiguous or round robin); -1: do not attach at all
        flavour:    sc_shmem_type_t value (0 basic, 1 prescan, 2 window, 3 window_prescan with SC_ENABLE_MPIWINSHARED)
@@ -28,7 +30,7 @@
 #define RUN_SECONDS 20
 static void on_alarm (int sig) { static const char m[] = "\nHANG\n"; (void) sig; if (write (1, m, sizeof m - 1) < 0) { } _exit (3); }
 
-typedef struct { int ppn_attach, flavour, dtype, count; unsigned dseed; char **out; } arg_t;
+typedef struct { int ppn_attach, flavour, dtype, count, sync; unsigned dseed; char **out; } arg_t;
 
 static unsigned mix (unsigned a, unsigned b, unsigned c)
 {
@@ -94,15 +96,23 @@ static void rank_main (int rank, int size, void *varg)
   q += sprintf (q, "grid=%d/%d/%d/%d ", ir, is, er, es);
 
   for (int c = 0; c < cnt; ++c) put_item (a->dtype, a->dseed, rank, c, mine + (size_t) c * ts);
+  simmpi_trace_note ("mA");
   char *A = (char *) sc_shmem_malloc (sc_package_id, (size_t) ts, (size_t) size * cnt, comm);
+  simmpi_trace_note ("ag");
   sc_shmem_allgather (mine, cnt, mpitype (a->dtype), A, cnt, mpitype (a->dtype), comm);
+  simmpi_trace_note ("mB");
   char *B = (char *) sc_shmem_malloc (sc_package_id, (size_t) ts, (size_t) (size + 1) * cnt, comm);
+  simmpi_trace_note ("pre");
   sc_shmem_prefix (mine, B, cnt, mpitype (a->dtype), sc_MPI_SUM, comm);
+  simmpi_trace_note ("mC");
   char *C = (char *) sc_shmem_malloc (sc_package_id, (size_t) ts, (size_t) size * cnt, comm);
+  simmpi_trace_note ("cp");
   sc_shmem_memcpy (C, A, nA, comm);
   char *sag = (char *) malloc (nA + 1), *spre = (char *) malloc (nB + 1), *scp = (char *) malloc (nA + 1), *sw[2];
   memcpy (sag, A, nA); memcpy (spre, B, nB); memcpy (scp, C, nA);
   for (int round = 0; round < 2; ++round) {
+    if (a->sync) { simmpi_trace_note ("sync"); mpiret = sc_MPI_Barrier (comm); SC_CHECK_MPI (mpiret); }
+    simmpi_trace_note (round ? "w2" : "w1");
     w[round] = sc_shmem_write_start (C, comm);
     if (w[round]) {
       for (size_t k = 0; k < nA; ++k) C[k] = (char) (mix (a->dseed + 77u * (unsigned) round, (unsigned) node, (unsigned) k) & 0xff);
@@ -115,9 +125,13 @@ static void rank_main (int rank, int size, void *varg)
   q += sprintf (q, " cp="); q = hexdup (scp, nA, q);
   q += sprintf (q, " w1="); q = hexdup (sw[0], nA, q); q += sprintf (q, " w2="); q = hexdup (sw[1], nA, q);
   free (sag); free (spre); free (scp); free (sw[0]); free (sw[1]);
+  simmpi_trace_note ("fC");
   sc_shmem_free (sc_package_id, C, comm);
+  simmpi_trace_note ("fB");
   sc_shmem_free (sc_package_id, B, comm);
+  simmpi_trace_note ("fA");
   sc_shmem_free (sc_package_id, A, comm);
+  simmpi_trace_note ("end");
   sc_mpi_comm_detach_node_comms (comm);
   mpiret = sc_MPI_Comm_free (&comm); SC_CHECK_MPI (mpiret);
   SC_FREE (mine);
@@ -135,7 +149,8 @@ int main (void)
   snprintf (tpath, sizeof tpath, "%s/trace.%d.jsonl", getenv ("VERIF_SCRATCH") ? getenv ("VERIF_SCRATCH") : "/var/tmp", (int) getpid ());
   while (fgets (line, sizeof line, stdin)) {
     int P, adv, ppn_sim, noncontig; unsigned long seed; arg_t a;
-    if (sscanf (line, "%d %lu %d %d %d %d %d %d %d %u", &P, &seed, &adv, &a.ppn_attach, &ppn_sim, &noncontig, &a.flavour, &a.dtype, &a.count, &a.dseed) < 10) continue;
+    a.sync = 1;
+    if (sscanf (line, "%d %lu %d %d %d %d %d %d %d %u %d", &P, &seed, &adv, &a.ppn_attach, &ppn_sim, &noncontig, &a.flavour, &a.dtype, &a.count, &a.dseed, &a.sync) < 10) continue;
     if (P < 1 || a.dtype < 0 || a.dtype > 7 || a.count < 0 || a.flavour < 0 || a.flavour >= (int) SC_SHMEM_NUM_TYPES) { printf ("RUN %d rc=-1 steps=0\nEND %d mem=0\n", run, run); ++run; continue; }
     a.out = (char **) calloc ((size_t) P, sizeof (char *));
     int mem0 = sc_memory_status (-1) + sc_memory_status (sc_package_id);
